@@ -32,6 +32,7 @@ def plan(tier, seed):
         dspecs, fspecs = [(1, 3), (2, 3), (3, 2), (4, 2), (5, 1), (6, 0)], [(1, 2), (2, 1), (3, 1), (4, 0)]
     chunks = sweep.shape_chunks(dspecs, per_chunk=16, kind='delete')
     chunks += sweep.shape_chunks(fspecs, per_chunk=2, kind='files', plen=3 if tier == 'quick' else 4)
+    chunks.append({'kind': 'inventory', 'n': 0, 'u': 0})
     return {
         'chunks': chunks + [{'kind': 'clipipe'}],
         'rule': 'delete: every hierarchy over n tokens (<= u unary) x every subset of token positions being '
@@ -499,7 +500,18 @@ def run_chunk(chunk):
     with quiet():
         _via[0] = None
         n = chunk['n']
-        if chunk['kind'] == 'delete':
+        if chunk['kind'] == 'inventory':
+            # every symbol of the (harness-side) punctuation inventory, mid-sentence and as the only content of a
+            # unary chain, must be deleted (and the chain pruned); look-alikes must stay
+            mt = None
+            for sym in sorted(PUNCT) + ['....', '..', '\u2026', 'w.', "'s", '-x-']:
+                for sh in (((1, 2), 3), ((1, ((2,),)), 3), (1, (2, 3))):
+                    mt = model.MT(1, model.mk_tokens(3, words=['w1', sym, 'w3']), model.decorate(sh, lambda p, s: 'N' + ''.join(map(str, p))))
+                    for q in (False, True):
+                        vs, nt = check_punct(mt.to_json(), q)
+                        take(vs, nt, ('inv', sym, model.shape_str(sh), q))
+            res.sample({'punctuation_inventory_symbols': len(PUNCT), 'example': model.mt_str(mt.root, mt.toks)})
+        elif chunk['kind'] == 'delete':
             subsets = [s for r in range(0, n + 1) for s in itertools.combinations(range(n), r)]
             for sh, k in sweep.iter_shapes(chunk):
                 root = model.decorate(sh, lambda p, s: CONS_LABELS[(sum(p) + len(p)) % len(CONS_LABELS)])
